@@ -169,6 +169,14 @@ def run_pair(case):
     evals += 1
     if have != want:
         fails.append(_fail("(f@g) relates x to z with sum_y f(x,y)*g(y,z)", inp0, have, want))
+    if fsm.no_repeats(F) and fsm.no_repeats(G) and len(F) + len(G) <= 8:
+        # the same machines built through the public set_I / set_F / set_arc
+        fs = fsm.build(FST, Poly, F, WF, use_set=True)
+        gs = fsm.build(FST, Poly, G, WG, use_set=True)
+        have = table_of(_call(lambda: fs @ gs))
+        evals += 1
+        if have != want:
+            fails.append(_fail("(f@g) for machines built with set_arc/set_I/set_F", inp0, have, want))
     if not isinstance(fg, str):
         # through the library's own evaluation, on the shortest related pair and two fixed probes
         probes = sorted(want, key=lambda k: (len(k[0]) + len(k[1]), repr(k)))[:1] + [((), ()), ((SY[0],), (SY[1],))]
